@@ -768,11 +768,15 @@ let () =
             (* a register whose instruction carried a `# map` line gets the glue model of that mapping: from then on every Index/Value the
                implementation reports for it is compared with the model's own (bit for bit) before it is used *)
             (match toks with
-             | _ :: k :: _ when Hashtbl.mem sketches k && List.hd toks <> "kcopy" ->
+             | _ :: k :: _ when Hashtbl.mem sketches k && List.hd toks <> "kcopy" && List.hd toks <> "kchtrace" ->
                (match (try side_map side with _ -> None) with
-                | Some (id, _, _) ->
-                  let kind = (match Z.to_int (to_zn id.M.mk_kind) with 0 -> Some M.MLog | 1 -> Some M.MLin | 3 -> Some M.MCub | _ -> None) in
+                | Some (sid, _, _) ->
                   let g = Hashtbl.find sketches k in
+                  (* the glue mapping is built from the MODEL's mapping identity for this register; the implementation's `# map` line must name the same one *)
+                  let id = (match g.sk with Some s -> s.M.sk_map | None -> sid) in
+                  let same = Z.equal (to_zn id.M.mk_kind) (to_zn sid.M.mk_kind) && xstr id.M.mk_gamma = xstr sid.M.mk_gamma && xstr id.M.mk_off = xstr sid.M.mk_off in
+                  if not same then xdiff := "MODEL-MAP-DIFFERS identity" :: !xdiff;
+                  let kind = (match Z.to_int (to_zn id.M.mk_kind) with 0 -> Some M.MLog | 1 -> Some M.MLin | 3 -> Some M.MCub | _ -> None) in
                   (match kind with
                    | Some kd -> (match (try M.with_gamma the_libm kd id.M.mk_gamma id.M.mk_off with _ -> None) with
                        | Some m -> g.gm <- (Some (fun v -> M.gm_index the_libm m v), Some (fun i -> M.gm_value the_libm m i))
